@@ -247,12 +247,16 @@ def build(store, t, **kw):
     if kind == "d":
         d, v = mk_od(t, **kw)
         cell = {(IDX, 0): unhx(p[1])}
-        return DictVariable(v, cell), lambda: cell[(IDX, 0)]
+        peek = lambda: cell[(IDX, 0)]                                   # noqa: E731
+        peek.poke = lambda b: cell.__setitem__((IDX, 0), bytes(b))
+        return DictVariable(v, cell), peek
     if kind == "l":
         d, v = mk_od(t, **kw)
         node = canopen.LocalNode(1, d)
         node.data_store[IDX] = {0: unhx(p[1])}
-        return node.sdo[IDX], lambda: node.data_store[IDX][0]
+        peek = lambda: node.data_store[IDX][0]                          # noqa: E731
+        peek.poke = lambda b: node.data_store[IDX].__setitem__(0, bytes(b))
+        return node.sdo[IDX], peek
     if kind == "s":
         d, v = mk_od(t, **kw)
         na, nb = FakeNet(), FakeNet()
@@ -265,7 +269,9 @@ def build(store, t, **kw):
         remote.sdo.RESPONSE_TIMEOUT = 0.01
         remote.sdo.MAX_RETRIES = 0
         local.data_store[IDX] = {0: unhx(p[1])}
-        return remote.sdo[IDX], lambda: local.data_store[IDX][0]
+        peek = lambda: local.data_store[IDX][0]                         # noqa: E731
+        peek.poke = lambda b: local.data_store[IDX].__setitem__(0, bytes(b))
+        return remote.sdo[IDX], peek
     if kind == "p":
         off, frame = int(p[1]), unhx(p[2])
         size = (SPEC[t][0] // 8) if t in SPEC else 1
@@ -283,7 +289,15 @@ def build(store, t, **kw):
         for i in range(off, off + trail):
             m.add_variable(0x2100 + i)
         m.data = bytearray(frame)
-        return m[IDX], lambda: bytes(m.data)
+        peek = lambda: bytes(m.data)                                    # noqa: E731
+
+        def poke(b):
+            # a new frame arrives: the same bytes elsewhere, the variable's window replaced
+            new = bytearray(m.data)
+            new[off:off + size] = b
+            m.data = new
+        peek.poke = poke
+        return m[IDX], peek
     raise ValueError(store)
 
 
@@ -309,6 +323,31 @@ def exact_float(fr):
 def run_impl(op):
     a = op.split(" ")
     kind = a[0]
+    if kind == "vseq":
+        # the variable object is kept, `var.bits` is taken afresh for every step, and `R=<int>` changes the raw
+        # value by another path in between
+        t = int(a[2])
+        var, peek = build(a[1], t, bitdefs=parse_defs(a[3]))
+        outs = []
+        for s in a[4].split("|"):
+            try:
+                if s.startswith("R="):
+                    # the value changes behind the variable's back: store written directly / new frame received
+                    w_, sg_ = SPEC[t]
+                    v_ = int(s[2:])
+                    if not (-(1 << (w_ - 1)) <= v_ < (1 << (w_ - 1)) if sg_ else 0 <= v_ < (1 << w_)):
+                        raise ValueError("does not fit")
+                    peek.poke((v_ % (1 << w_)).to_bytes(w_ // 8, "little"))
+                    outs.append("ok")
+                elif s.endswith("?"):
+                    outs.append(show_int(var.bits[parse_key(s[:-1])]))
+                else:
+                    k, v = s.split("=")
+                    var.bits[parse_key(k)] = int(v)
+                    outs.append("ok")
+            except Exception:
+                outs.append("err")
+        return f"ok {','.join(outs)} {hx(peek())}"
     if kind in ("bits", "seq"):
         t = int(a[2])
         var, peek = build(a[1], t, bitdefs=parse_defs(a[3]))
@@ -512,6 +551,36 @@ def oracle(op, out):
         if out != exp:
             return (f"assigning {v} to field [{lo},{hi}) of {w}-bit {'signed' if signed else 'unsigned'} "
                     f"raw {raw} (spelling {a[4].split(':')[0]}) gave {out}, exactly-those-bits is {exp}")
+        return None
+    if kind == "vseq":
+        defs = parse_defs(a[3])
+        p_now, res = P, []
+        for s in a[4].split("|"):
+            if s.startswith("R="):
+                v = int(s[2:])
+                lo_, hi_ = (-(1 << (w - 1)), (1 << (w - 1)) - 1) if signed else (0, (1 << w) - 1)
+                if not lo_ <= v <= hi_:
+                    return None
+                p_now = v % (1 << w)
+                res.append("ok")
+                continue
+            k = s[:-1] if s.endswith("?") else s.split("=")[0]
+            rg = key_range(k, defs)
+            if rg is None or rg[1] > w:
+                return None
+            lo, hi = rg
+            n = hi - lo
+            if s.endswith("?"):
+                res.append(str((p_now >> lo) & ((1 << n) - 1)))
+            else:
+                v = int(s.split("=")[1])
+                if not 0 <= v < (1 << n):
+                    return None
+                p_now = (p_now & ~(((1 << n) - 1) << lo)) | (v << lo)
+                res.append("ok")
+        exp = f"ok {','.join(res)} {hx(put(p_now.to_bytes(w // 8, 'little')))}"
+        if out != exp:
+            return f"bit views taken afresh after the value changed gave {out}, expected {exp}"
         return None
     if kind == "seq":
         defs = parse_defs(a[3])
@@ -836,6 +905,22 @@ def gen_bits(tier, rng):
             key = rng.choice(spellings(rng, lo, hi, extra_defs=False)[:-1])[0]
             ops.append(f"{key}?" if rng.random() < 0.4 else f"{key}={rng.randint(0, (1 << (hi - lo)) - 1)}")
         yield f"seq {mk_store(rng, t, rand_raw_bytes(rng, w))} {t} - {'|'.join(ops)}"
+    # (4b) one variable object, a fresh `bits` view per step, the raw value changed by another path in between
+    for _ in range(80 if quick else 1500):
+        t = rng.choice(INT_TYPES)
+        w, signed = SPEC[t]
+        ops = []
+        for _ in range(rng.randint(3, 7)):
+            r = rng.random()
+            if r < 0.3:
+                lo_, hi_ = (-(1 << (w - 1)), (1 << (w - 1)) - 1) if signed else (0, (1 << w) - 1)
+                ops.append(f"R={rng.randint(lo_, hi_)}")
+                continue
+            lo = rng.randrange(w)
+            hi = rng.randint(lo + 1, w)
+            key = rng.choice(spellings(rng, lo, hi, extra_defs=False)[:3])[0]
+            ops.append(f"{key}?" if r < 0.65 else f"{key}={rng.randint(0, (1 << (hi - lo)) - 1)}")
+        yield f"vseq {mk_store(rng, t, rand_raw_bytes(rng, w))} {t} - {'|'.join(ops)}"
     # (5) out-of-domain keys and values: model vs code only
     odd_keys = [key_s("l", []), key_s("l", [-1]), key_s("l", [3, -2, 5]), key_s("l", [7, 3]), key_s("l", [0, 2, 4]),
                 key_s("l", [5, 5, 6]), key_s("t", [1, 2]), key_s("t", []), key_s("n", -1), key_s("n", 200),
